@@ -62,5 +62,6 @@ def run(R):
         c = R.call(h, "lit", [n], std=std)
         N = sx(n, W)   # the literal operator casts to int64 first
         inr = z3.And(N <= val(LIM, W), N >= val(-LIM, W))
-        R.verify("%s/lit/exact-or-nan" % t, [n], [c], z3.BoolVal(True),
+        # the literal operator takes unsigned long long; only values below 2^63 have an unambiguous meaning
+        R.verify("%s/lit/exact-or-nan" % t, [n], [c], n >= 0,
                  z3.If(inr, sx(c.out, W) == N * val(65536, W), c.out == val(NAN)))
